@@ -156,13 +156,15 @@ impl MoveGen {
 
     /// Never, ever, iterate this move
     pub fn remove_move(&mut self, chess_move: ChessMove) -> bool {
-        for x in 0..self.moves.len() {
-            if self.moves[x].src == chess_move.source {
-                self.moves[x].moves -= chess_move.dest;
-                return true;
+        let mut found = false;
+        // a pawn that may also capture en-passant owns two entries
+        for legals in &mut self.moves {
+            if legals.src == chess_move.source {
+                legals.moves -= chess_move.dest;
+                found = true;
             }
         }
-        false
+        found
     }
 
     pub fn set_mask(&mut self, mask: BitBoard) {
